@@ -2,6 +2,7 @@
 //! one canonical result line per case.
 mod asyncsrc;
 mod chain;
+mod finalize;
 mod flatten;
 mod group;
 mod probe;
@@ -31,6 +32,8 @@ fn run_case(case: &Sexp) -> String {
     "async" => asyncsrc::run_async(body),
     "atform" => timed::run_atform(body),
     "subalg" => subalg::run_subalg(body),
+    "finalize" => finalize::run_finalize(body),
+    "finalize_race" => finalize::run_finalize_race(body),
     "subject" => subj::run_subject(body),
     "behavior" => subj::run_behavior(body),
     "op2" => chain::local::run_op2(body),
